@@ -67,6 +67,22 @@ Theorem C17_attribution : forall ops, let s := prun ops in
              (forall conn x, conns s conn = Some x -> conns (fst (pstep s o)) conn = Some x)).
 Proof. exact thm_attribution. Qed.
 
+(* a deleted consumer is bound to nothing, for ever: DeleteConsumerChain removes the consumer->channel AND the
+   channel->consumer entry whatever the state of the channel end (a timeout has usually closed it already) and
+   closes the end otherwise; afterwards no channel is attributed to the consumer, no operation -- in particular no
+   late packet callback on the old channel -- changes its phase again *)
+Theorem C17_deleted_unbound : forall ops, let s := prun ops in
+  (forall c, phase s c = PH_DELETED ->
+     fwd s c = None /\ c2ch s c = None /\ (forall ch, ch2c s ch <> Some c) /\ (forall x, rev s x <> Some c) /\
+     (forall ch, attribute s ch <> Some c)) /\
+  (forall c ch, phase s c = PH_STOPPED -> c2ch s c = Some ch ->
+     c2ch (delete_consumer s c) c = None /\ ch2c (delete_consumer s c) ch = None /\
+     phase (delete_consumer s c) c = PH_DELETED /\ (chans s ch <> None -> closed (delete_consumer s c) ch = true)) /\
+  (forall o c, phase s c = PH_DELETED -> phase (fst (pstep s o)) c = PH_DELETED) /\
+  (forall ch c, attribute s ch = Some c -> closed (fst (pstep s (PTimeout ch))) ch = true) /\
+  (forall o ch, closed s ch = true -> closed (fst (pstep s o)) ch = true).
+Proof. exact thm_deleted_unbound. Qed.
+
 (* the provider never completes a handshake it initiated (and users cannot close CCV channels) *)
 Theorem C17_init_ack_rejected : forall s,
   pstep s POpenInit = (s, (E_FLOW, -1)) /\ pstep s POpenAck = (s, (E_FLOW, -1)) /\ E_FLOW <> OK /\
@@ -133,6 +149,17 @@ Example ex_delete_and_reuse :
   let s := prun (ex_ops ++ [PTimeout 0; PPurge; PLaunch 3 7 (Some 0)]) in
   phase s 0 = PH_DELETED /\ fwd s 0 = None /\ c2ch s 0 = None /\ ch2c s 0 = None /\
   fwd s 3 = Some 0 /\ rev s 0 = Some 3 /\ phase s 3 = PH_LAUNCHED.
+Proof. vm_compute. repeat split; reflexivity. Qed.
+
+(* a timeout closes channel 0 and stops consumer 0; after the removal block consumer 3 is launched on the same
+   connection, a new channel 2 is established; late packets on the old channel 0 find no consumer *)
+Example ex_closed_channel_relaunch :
+  let ops := ex_ops ++ [PTimeout 0; PPurge; PLaunch 3 7 (Some 0); PAddChan 2 0; PConfirm 2] in
+  let s := prun ops in
+  closed (prun (ex_ops ++ [PTimeout 0])) 0 = true /\
+  ch2c s 0 = None /\ ch2c s 2 = Some 3 /\ c2ch s 3 = Some 2 /\ phase s 0 = PH_DELETED /\
+  snd (pstep s (PTimeout 0)) = (E_UNKNOWN_CHAN, -1) /\ snd (pstep s (PRecvSlash 0)) = (E_PANIC, -1) /\
+  phase (fst (pstep s (PTimeout 0))) 0 = PH_DELETED /\ snd (pstep s (PRecvSlash 2)) = (OK, 3).
 Proof. vm_compute. repeat split; reflexivity. Qed.
 
 Example ex_consumer :
